@@ -420,8 +420,8 @@ def run_cursor(prog, ctx=None):
             for e2 in b.el:
                 for m in walk_own(e2):
                     if m.get("k") == "bin" and m.get("op") == "-=":
-                        r = strip(m["b"], all_casts=True)
-                        if r.get("k") == "mem" and r.get("f") == "iov_len" and norm(show(r["b"], f)) == norm(show(tgt, f)):
+                        rx = _iov_member(m["b"], "iov_len", f)
+                        if rx is not None and norm(show(strip(rx, all_casts=True), f)) == norm(show(tgt, f)):
                             walkpos = True
             if walkpos:
                 res.ob(key, True, f, n.get("l", 0), detail={"idiom": "position walk bounded by a search result over the same fragments (relational, accepted by shape)"})
@@ -437,8 +437,8 @@ def run_cursor(prog, ctx=None):
                 if c is None or not (c.get("k") == "bin" and c.get("op") in (">=", ">", "<", "<=")):
                     continue
                 for side in (c["a"], c["b"]):
-                    r = strip(side, all_casts=True)
-                    if r.get("k") == "mem" and r.get("f") == "iov_len" and norm(show(strip(r["b"], all_casts=True), f)) == norm(show(tgt, f)):
+                    rx = _iov_member(side, "iov_len", f)
+                    if rx is not None and norm(show(strip(rx, all_casts=True), f)) == norm(show(tgt, f)):
                         # the loop body is a position walk over this cursor
                         for s2 in blk.succ:
                             if s2 is None:
@@ -446,8 +446,8 @@ def run_cursor(prog, ctx=None):
                             for e2 in f.blocks[s2].el:
                                 for m in walk_own(e2):
                                     if m.get("k") == "bin" and m.get("op") == "-=":
-                                        rr = strip(m["b"], all_casts=True)
-                                        if rr.get("k") == "mem" and rr.get("f") == "iov_len" and norm(show(strip(rr["b"], all_casts=True), f)) == norm(show(tgt, f)):
+                                        rr = _iov_member(m["b"], "iov_len", f)
+                                        if rr is not None and norm(show(strip(rr, all_casts=True), f)) == norm(show(tgt, f)):
                                             located = True
             if located:
                 res.ob(key, True, f, n.get("l", 0), detail={"idiom": "step past the fragment a position walk over the same cursor stopped in (relational, accepted by shape)"})
@@ -2288,11 +2288,29 @@ def run_indexstep(prog, ctx=None):
     return res
 
 
-def _iov_member(e, field):
-    """X of the expression X->field / X[i].field / (*X).field when field is an iovec member, else None"""
+def _iov_member(e, field, f=None):
+    """X of the expression X->field / X[i].field / (*X).field when field is an iovec member, else None; with the function given also
+    through an assignment `(v = X->field)` and through a local whose every definition is X->field (a temporary for the load)"""
     e = strip(e, all_casts=True)
     if e.get("k") == "mem" and e.get("f") == field:
         return e["b"]
+    if e.get("k") == "bin" and e.get("op") == "=":
+        return _iov_member(e["b"], field, None)
+    if f is not None and e.get("k") == "ref" and e["d"].get("dk") == "local":
+        vid = e["d"]["id"]
+        srcs = []
+        for b, i, n in f.walk_all():
+            if n.get("k") == "bin" and n.get("op", "").endswith("=") and n["op"] not in ("==", "!=", "<=", ">="):
+                l = strip(n["a"], lvalue_to_rvalue=False)
+                if l.get("k") == "ref" and l["d"].get("id") == vid:
+                    srcs.append(n["b"] if n["op"] == "=" else None)
+            elif n.get("k") == "decl":
+                for v in n["vars"]:
+                    if v["id"] == vid and v.get("init") is not None:
+                        srcs.append(v["init"])
+        xs = [(_iov_member(x, field, None) if x is not None else None) for x in srcs]
+        if xs and all(x is not None for x in xs) and len({norm(show(strip(x, all_casts=True), f)) for x in xs}) == 1:
+            return xs[0]
     return None
 
 
@@ -2314,10 +2332,10 @@ def run_fraglocate(prog, ctx=None):
             if not (c.get("k") == "bin" and c.get("op") in (">", ">=", "<", "<=")):
                 continue
             a, b, op = strip(c["a"], all_casts=True), strip(c["b"], all_casts=True), c["op"]
-            if _iov_member(a, "iov_len") is not None and _iov_member(b, "iov_len") is None:
+            if _iov_member(a, "iov_len", f) is not None and _iov_member(b, "iov_len", f) is None:
                 a, b = b, a
                 op = {"<": ">", "<=": ">=", ">": "<", ">=": "<="}[op]
-            xb = _iov_member(b, "iov_len")
+            xb = _iov_member(b, "iov_len", f)
             if xb is None or a.get("k") != "ref" or "id" not in a["d"]:
                 continue
             xs = strip(xb, all_casts=True)
@@ -2330,7 +2348,7 @@ def run_fraglocate(prog, ctx=None):
                     for n in walk_own(e):
                         if n.get("k") == "bin" and n.get("op") == "-=":
                             l = strip(n["a"], lvalue_to_rvalue=False)
-                            r = _iov_member(n["b"], "iov_len")
+                            r = _iov_member(n["b"], "iov_len", f)
                             if l.get("k") == "ref" and l["d"].get("id") == pid and r is not None:
                                 rs = strip(r, all_casts=True)
                                 if rs.get("k") == "ref" and rs["d"].get("id") == xid:
